@@ -23,7 +23,7 @@ func init() {
 		Assumptions: []string{"Of/OfMany compared only on ascending (merged) lists, sizes >= 0, positions >= 0 (Of's stated domain)", "Builder compared as a set; extra zero words are allowed",
 			"Get/Get1 probed only inside the bitmap"},
 		Flavours: releaseAnd386,
-		Required: []string{"of/empty-list", "of/n-absent", "of/n-negative", "of/n<last+1", "of/n>last+1", "of/last%64=63", "of/last%64=0", "probe/negative", "probe/beyond", "probe/maxint32", "probe/minint32",
+		Required: []string{"of/empty-list", "of/n-absent", "of/n-absent-as-empty-non-nil-variadic", "of/n-negative", "of/n<last+1", "of/n>last+1", "of/last%64=63", "of/last%64=0", "probe/negative", "probe/beyond", "probe/maxint32", "probe/minint32",
 			"ofmany/pos>=size", "ofmany/size=0", "ofmany/empty-sub", "ofmany/segments-carved-from-one-arena", "ofmany/shifted-list-not-ascending", "builder/extend-pos>=size", "builder/extend-size=0", "builder/extend-empty", "builder/set-0", "builder/set-1", "builder/presized", "builder/over-dirty-capacity", "roundtrip/trailing-zero-words", "probe/bitmap>=2^31-bits"},
 		Families: func(c *mon.Config) []mon.Family {
 			return []mon.Family{
@@ -216,7 +216,17 @@ func c12Of(w *mon.W, idx int) {
 			w.Bucket("of/n-negative")
 		}
 	} else {
-		got = bitmap.Of(l)
+		// "no size" reaches Of in three spellings: no argument, a nil variadic slice, an empty non-nil one
+		switch (idx / 9) % 3 {
+		case 0:
+			got = bitmap.Of(l)
+		case 1:
+			var none []int32
+			got = bitmap.Of(l, none...)
+		default:
+			got = bitmap.Of(l, make([]int32, 0, 1)...)
+			w.Bucket("of/n-absent-as-empty-non-nil-variadic")
+		}
 		w.Bucket("of/n-absent")
 	}
 	if last >= 0 {
